@@ -165,7 +165,15 @@ class Manager:
         cur = self.mod.current_backend()
         self.tls.ran_on = None
         getattr(self.api, self.marker)(*self.marker_args)
-        return name, (cur is self.inst.get(name)), self.tls.ran_on
+        ident = cur is self.inst.get(name)
+        if self.which == "tenalg":
+            # the functions a backend runs are its own: the implementation reached through the selected backend comes from that
+            # backend's package (the marker wrapper sits on the instance and would hide a mix-up one level below it)
+            for fn_ in ("mode_dot", "khatri_rao", "unfolding_dot_khatri_rao"):
+                mod_ = getattr(getattr(type(cur), fn_, None), "__module__", "") or ""
+                if ("%s_tenalg" % name) not in mod_:
+                    ident = False
+        return name, ident, self.tls.ran_on
 
 
 class Worker(threading.Thread):
@@ -210,6 +218,10 @@ class Worker(threading.Thread):
             # the same operation from inside a contextvars.Context.run callback (what an asyncio task or a to_thread hop is): the
             # selection belongs to the thread, not to the execution context that happened to be current
             return contextvars.copy_context().run(do_op, m, self.stacks[mname], op, arg)
+        if kind == "select_object":
+            m.api.set_backend(arg, local_threadsafe=True)
+            cur = m.mod.current_backend()
+            return True if cur is arg else "another object (%s, the same name: %s)" % (type(cur).__name__, getattr(cur, "backend_name", None) == getattr(arg, "backend_name", None))
         if kind == "grab_ctx":
             return contextvars.copy_context()
         if kind == "observe_ctx":
@@ -509,6 +521,18 @@ def run_case(case, ctx):
     if g == "cross_manager":
         # interleave operations on both managers; each manager's observations must follow its own model only
         mgrs, workers = pool(2)
+        if not reset_all(mgrs, workers):
+            mgrs, workers = pool(2)
+        # a backend selected as an object (documented: "tensorly.Backend or str"): the thread then runs on THAT object, also when another
+        # instance is already loaded under the same name
+        for mn_, m_ in mgrs.items():
+            twin = type(m_.inst[m_.names[-1]])()
+            res = workers[0].call("select_object", mn_, None, twin)
+            ctx.count("backend_selected_as_object")
+            if res is not True:
+                ctx.violation("C17:%s:object-selection:twin-instance" % mn_, "after set_backend(<a second instance of the %r backend>, local_threadsafe=True) the thread's current backend is %s" % (
+                    m_.names[-1], res), {"manager": mn_})
+                return
         if not reset_all(mgrs, workers):
             mgrs, workers = pool(2)
         st = {mn: model_init(2, mgrs[mn].names[0]) for mn in mgrs}
